@@ -357,4 +357,59 @@ theorem real_win_no_forwarding_if_plain_names (w : CfiStackWalker) (hw : X86Walk
     · exact h3
   · intro h3; exact Or.inr ⟨hr, h3⟩
 
+/-! ## 3. concrete instances (non-vacuity) -/
+
+/-- a real x86 walker: callee `esp=0x1000 ebp=0x1020 esi=0x51 edi=0xd1` (all valid), the four
+    callee-saved registers forwarded, sixteen stack words `0x401000+i` at `0x1000` -/
+def exRw : CfiStackWalker :=
+  let st := (((Regs.State.zero.write ⟨"esp", none⟩ 0x1000).write ⟨"ebp", none⟩ 0x1020).write
+    ⟨"esi", none⟩ 0x51).write ⟨"edi", none⟩ 0xd1
+  { cpu := .ctx .X86, instruction := 0x401005, hasGrandCallee := false, grandCalleeParameterSize := 0,
+    calleeCtx := st, calleeValidity := .all, callerCtx := st,
+    callerValidity := ["ebp", "ebx", "edi", "esi"], moduleBase := 0x400000,
+    stack := { base := 0x1000,
+               bytes := (List.range 16).flatMap fun i => [UInt8.ofNat i, 0x10, 0x40, 0], bigEndian := false } }
+
+/-- the record of the known finding's witness: `$eip .raSearch ^ = $esp .raSearch 4 + =` -/
+def exRec : SInfo := { info := ⟨0, 0, 8⟩, thing := .prog witnessProg }
+
+theorem exRw_x86 : X86Walker exRw := by
+  refine ⟨rfl, rfl, ?_⟩
+  intro s hs
+  simp only [x86Regs, List.mem_cons, List.not_mem_nil, or_false] at hs
+  rcases hs with rfl | rfl | rfl | rfl | rfl | rfl | rfl | rfl | rfl | rfl <;> decide +kernel
+
+-- the hypothesis set of `win_walk_refines`: `callerOf` is a record that agrees with the walker
+example : Sim exRw (callerOf exRw) := callerOf_sim exRw exRw_x86.cells
+
+-- a CFI continuation acting alike on both sides (here: one that always fails)
+example : CfiRefines (some fun w => .ok (false, w)) (some fun _ => none) :=
+  fun w _ _ _ => ⟨w, rfl⟩
+
+-- the hypotheses of `real_framedata_caller` / `real_win_forwarding_known_finding` are satisfiable,
+-- and the finding shows on the model of the REAL walker: the program defines only `$eip`/`$esp`
+-- (`.raSearch` = esp + 8 = 0x1008, the word there is 0x401002), yet `ebp ebx edi esi` are still
+-- valid afterwards, `esi` with the callee's value 0x51
+example : (match finalVars witnessProg exRec.info (readOf exRw) with
+    | .ok vs => (vs.get "$eip", vs.get "$esp", vs.get "$esi", vs.get "$edi")
+    | _ => (none, none, none, none)) = (some 0x401002, some 0x100c, none, none) := by decide +kernel
+
+example : (match walkFramedataReal clearNamesActual exRec exRw with
+    | .ok (b, w') => some (b, w'.callerValidity, callerView w' "eip", callerView w' "esp", callerView w' "esi")
+    | .panic _ => none) =
+    some (true, ["ebp", "ebx", "edi", "esi", "eip", "esp"], some 0x401002, some 0x100c, some 0x51) := by
+  decide +kernel
+
+-- with the `$` stripped from the clear list nothing is forwarded (`$ebp`/`$ebx` are variables the
+-- evaluator initialises from the callee, so the program itself reports them; `esi`/`edi` are unknown)
+example : (match walkFramedataReal clearNamesFixed exRec exRw with
+    | .ok (b, w') => some (b, w'.callerValidity)
+    | .panic _ => none) = some (true, ["eip", "esp", "ebp", "ebx"]) := by decide +kernel
+
+-- fpo on the real walker (no base pointer): `ebx` is not valid in the callee? it is (`.all`): passed
+-- through, `eip = *(esp + 8)`, `esp = esp + 12`, `ebp` = the callee's
+example : (match walkFpoReal clearNamesActual { info := ⟨0, 0, 8⟩, thing := .abp false } exRw with
+    | .ok (b, w') => some (b, callerView w' "eip", callerView w' "esp", callerView w' "ebp", callerView w' "ebx")
+    | .panic _ => none) = some (true, some 0x401002, some 0x100c, some 0x1020, some 0) := by decide +kernel
+
 end MdModel.WinWalker
